@@ -142,3 +142,32 @@ func (c *Client) WaitClosed(timeout time.Duration) ([]*wire.Message, error) {
 		return got, nil
 	}
 }
+
+// StartTLS sends a StartTLS extended request, expects a successful
+// ExtendedResponse and upgrades the connection.
+func (c *Client) StartTLS(cfg *tls.Config, msgID int64) error {
+	req := wire.Req{Kind: "extended", MsgID: msgID, ExtName: []byte(wire.OIDStartTLS)}
+	if err := c.Send(req.Encode()); err != nil {
+		return err
+	}
+	m, err := c.Next(10 * time.Second)
+	if err != nil {
+		return fmt.Errorf("starttls response: %w", err)
+	}
+	res, err := m.Result()
+	if err != nil || m.ID != msgID || res.Code != 0 {
+		return fmt.Errorf("starttls refused: id=%d err=%v", m.ID, err)
+	}
+	if c.stream.Pending() != 0 {
+		return fmt.Errorf("starttls: %d plaintext bytes after the response", c.stream.Pending())
+	}
+	tc := tls.Client(c.C, cfg)
+	_ = c.C.SetDeadline(time.Now().Add(10 * time.Second))
+	if err := tc.Handshake(); err != nil {
+		return fmt.Errorf("starttls handshake: %w", err)
+	}
+	_ = c.C.SetDeadline(time.Time{})
+	c.C = tc
+	c.stream = wire.Stream{}
+	return nil
+}
